@@ -90,6 +90,8 @@ type enc struct {
 	entryAt int
 	lastModel map[string]string
 	usedSpecs map[string]bool
+	usedSites map[string]bool
+	priv      []privAlloc
 }
 
 type EncOpts struct {
@@ -108,37 +110,7 @@ func (e *enc) strsort() string { return "Str" }
 
 func (e *enc) note(s string) { e.notes[s]++ }
 
-func (e *enc) sortOf(t types.Type) string {
-	switch u := t.Underlying().(type) {
-	case *types.Basic:
-		switch {
-		case u.Info()&types.IsBoolean != 0:
-			return "Bool"
-		case u.Info()&types.IsInteger != 0:
-			return "ISort"
-		case u.Info()&types.IsString != 0:
-			return "Str"
-		case u.Info()&types.IsFloat != 0:
-			return "F64"
-		case u.Kind() == types.UntypedNil:
-			return "Iface"
-		case u.Kind() == types.UnsafePointer:
-			return "Ref"
-		}
-		return "ISort"
-	case *types.Pointer, *types.Map, *types.Signature, *types.Chan:
-		return "Ref"
-	case *types.Interface:
-		return "Iface"
-	case *types.Slice:
-		return "Slice"
-	case *types.Struct, *types.Array:
-		return "SV"
-	case *types.Tuple:
-		return "TUPLE"
-	}
-	return "Ref"
-}
+func (e *enc) sortOf(t types.Type) string { return sortOfType(t) }
 
 func (e *enc) decl(name, sort string) {
 	if e.declared[name] {
@@ -615,7 +587,8 @@ func (e *enc) bump(a string) string {
 
 func isGhostArr(a string) bool { return strings.HasPrefix(a, "G_") }
 
-// havocHeap bumps all (non-ghost) arrays for which keep returns false.
+// havocHeap bumps all (non-ghost) arrays for which keep returns false. The allocation clock
+// always moves on; objects private to this activation (non-escaping locals) keep their contents.
 func (e *enc) havocHeap(keep func(string) bool) {
 	arrs := []string{}
 	for a := range e.heapSort {
@@ -623,7 +596,13 @@ func (e *enc) havocHeap(keep func(string) bool) {
 	}
 	sort.Strings(arrs)
 	for _, a := range arrs {
-		if isGhostArr(a) && a != "G_now" {
+		if a == "G_now" {
+			old := e.hname(a)
+			nv := e.bump(a)
+			e.assume(fmt.Sprintf("(>= %s %s)", nv, old))
+			continue
+		}
+		if isGhostArr(a) {
 			continue
 		}
 		if keep != nil && keep(a) {
@@ -632,13 +611,13 @@ func (e *enc) havocHeap(keep func(string) bool) {
 		if e.w.immutableArr(a) {
 			continue
 		}
-		if a == "G_now" {
-			old := e.hname(a)
-			nv := e.bump(a)
-			e.assume(fmt.Sprintf("(>= %s %s)", nv, old))
-			continue
+		old := e.hname(a)
+		nv := e.bump(a)
+		for _, p := range e.priv {
+			if p.arrs[a] {
+				e.assume(fmt.Sprintf("(= (select %s %s) (select %s %s))", nv, p.ref, old, p.ref))
+			}
 		}
-		e.bump(a)
 	}
 	if e.rec != nil && e.curInstr != nil && keep == nil {
 		e.rec.writes[e.curInstr] = append(e.rec.writes[e.curInstr], "*")
